@@ -18,6 +18,9 @@ pub enum Mode {
     NextSample,
     /// signal::lift over a plain frame iterator (the tree is ignored except for the leaf length)
     Lift,
+    /// the signal is consumed through a `&mut` borrow (`impl Signal for &mut S`): is_exhausted() before every next(),
+    /// then `by_ref().until_exhausted()` over a fresh instance
+    Borrowed,
 }
 
 #[derive(Clone, Debug, Serialize, Deserialize)]
@@ -162,6 +165,30 @@ where
                 vp_core::iterlaws::iter_laws("into_interleaved_samples().into_iter()", || build::<F>(&c.tree, &mut Built::default()).into_interleaved_samples().into_iter(), &expect, true)?;
             }
         }
+        Mode::Borrowed => {
+            fn drive<S: Signal>(mut s: S, n: u64, l: Option<u64>, exp: &dyn Fn(u64) -> S::Frame) -> CheckResult
+            where
+                S::Frame: std::fmt::Debug + PartialEq,
+            {
+                for k in 0..n {
+                    let (ex, want) = (s.is_exhausted(), l.map_or(false, |len| k >= len));
+                    ensure!(ex == want, "through a &mut borrow, before pull {}: is_exhausted() = {}, but the signal ends after {:?} frames", k, ex, l);
+                    let (got, m) = (s.next(), exp(k));
+                    ensure!(got == m, "through a &mut borrow, frame {}: got {:?}, expected {:?}", k, got, m);
+                }
+                Ok(())
+            }
+            let mut sig = build::<F>(&c.tree, &mut b);
+            let n = l.unwrap_or(INFINITE_WINDOW) + c.extra;
+            drive(&mut sig, n, l, &|k| model::<F>(&c.tree, k))?;
+            if let Some(len) = l {
+                let mut sig = build::<F>(&c.tree, &mut Built::default());
+                let got = sig.by_ref().until_exhausted().take(len as usize + 10).count() as u64;
+                ensure!(got == len, "by_ref().until_exhausted() yields {} frames, the signal has exactly {}", got, len);
+                ensure!(sig.is_exhausted(), "after by_ref().until_exhausted() the owner does not report exhaustion");
+            }
+            st.class("consumed through a &mut borrow");
+        }
         Mode::Lift => {
             let len = leaf_lens.first().copied().flatten().unwrap_or(0);
             let frames: Vec<F> = (0..len).map(F::leaf).collect();
@@ -190,6 +217,7 @@ fn modes() -> impl Strategy<Value = Mode> {
         2 => Just(Mode::InterleavedIter),
         1 => Just(Mode::NextSample),
         1 => Just(Mode::Lift),
+        2 => Just(Mode::Borrowed),
     ]
 }
 
@@ -276,7 +304,14 @@ pub enum CombCase {
     MulHz { src_len: u64, ctl_len: u64, ratio_q: u32, linear: bool },
     /// a bus over a source of `src_len` frames with `outputs` outputs attached up front; `schedule[k]` names the output that
     /// pulls next (an output that is already exhausted does not pull, as a consumer using until_exhausted would not)
-    Bus { src_len: u64, outputs: usize, schedule: Vec<usize> },
+    Bus {
+        src_len: u64,
+        outputs: usize,
+        schedule: Vec<usize>,
+        /// schedule steps before which one more output is attached
+        #[serde(default)]
+        late: Vec<usize>,
+    },
     /// a plain rate converter at constant ratio `ratio_q`/4 over a source of `src_len` frames: it must end
     Conv { src_len: u64, ratio_q: u32, linear: bool },
     /// `rate.hz(frequency signal of len frames)` used as a signal in its own right (and under a pointwise adaptor)
@@ -403,43 +438,99 @@ pub fn check_comb(c: &CombCase, st: &mut Stats) -> CheckResult {
             st.class("frequency signal (rate.hz) used as a signal");
             Ok(())
         }
-        CombCase::Bus { src_len, outputs, schedule } => {
+        CombCase::Bus { src_len, outputs, schedule, late } => {
             use dasp_signal::bus::SignalBus;
             ensure!(*outputs >= 1, "bad case: no output");
             let l = *src_len;
             let bus = comb_src(l).bus();
             let mut outs: Vec<_> = (0..*outputs).map(|_| bus.send()).collect();
-            let mut recv = vec![0u64; *outputs];
+            // absolute stream position of every output (an output attached late starts at the source's position)
+            let mut pos = vec![0u64; *outputs];
             let mut lagging_while_done = false;
-            let all_flags = |outs: &Vec<_>, recv: &Vec<u64>, what: &str| -> CheckResult {
-                for j in 0..recv.len() {
+            let mut attached_late_behind = false;
+            let all_flags = |outs: &Vec<_>, pos: &Vec<u64>, what: &str| -> CheckResult {
+                for j in 0..pos.len() {
                     let o: &dasp_signal::bus::Output<_> = &outs[j];
-                    let (got, exp) = (o.is_exhausted(), recv[j] >= l);
-                    ensure!(got == exp, "{}: output {} has received {} of the source's {} frames (others: {:?}) but is_exhausted() = {}", what, j, recv[j], l, recv, got);
+                    let (got, exp) = (o.is_exhausted(), pos[j] >= l);
+                    ensure!(got == exp, "{}: output {} stands at frame {} of the source's {} frames (others: {:?}) but is_exhausted() = {}", what, j, pos[j], l, pos, got);
                 }
                 Ok(())
             };
-            all_flags(&outs, &recv, "initially")?;
+            all_flags(&outs, &pos, "initially")?;
             for (k, i) in schedule.iter().enumerate() {
-                let i = *i % *outputs;
-                if recv[i] >= l {
+                if late.contains(&k) && outs.len() < 6 {
+                    // the new output's stream begins with the first frame nobody has pulled yet
+                    let p = pos.iter().copied().max().unwrap_or(0);
+                    attached_late_behind |= pos.iter().any(|q| *q < p);
+                    outs.push(bus.send());
+                    pos.push(p);
+                    all_flags(&outs, &pos, &format!("after attaching output {} before step {}", outs.len() - 1, k))?;
+                }
+                let i = *i % outs.len();
+                if pos[i] >= l {
                     continue;
                 }
                 let got = outs[i].next();
-                ensure!(got == 1.0 + recv[i] as f64, "step {}: output {} got {}, expected source frame {}", k, i, got, recv[i]);
-                recv[i] += 1;
-                all_flags(&outs, &recv, &format!("after step {} (output {} pulled)", k, i))?;
-                lagging_while_done |= recv.iter().any(|r| *r >= l) && recv.iter().any(|r| *r < l);
+                ensure!(got == 1.0 + pos[i] as f64, "step {}: output {} got {}, expected source frame {}", k, i, got, pos[i]);
+                pos[i] += 1;
+                all_flags(&outs, &pos, &format!("after step {} (output {} pulled)", k, i))?;
+                lagging_while_done |= pos.iter().any(|r| *r >= l) && pos.iter().any(|r| *r < l);
             }
             for (j, o) in outs.into_iter().enumerate() {
-                let rest = o.until_exhausted().take((l - recv[j]) as usize + 10).count() as u64;
-                ensure!(rest == l - recv[j], "output {} had received {} of {} frames; until_exhausted() then yields {} more, expected {}", j, recv[j], l, rest, l - recv[j]);
+                let rest = o.until_exhausted().take((l - pos[j]) as usize + 10).count() as u64;
+                ensure!(rest == l - pos[j], "output {} stood at frame {} of {}; until_exhausted() then yields {} more, expected {}", j, pos[j], l, rest, l - pos[j]);
             }
-            st.nt(*outputs >= 2);
+            st.nt(*outputs >= 2 || !late.is_empty());
             st.class_if(lagging_while_done, "bus: one output exhausted while another lags");
+            st.class_if(attached_late_behind, "bus: output attached while another output lags");
             Ok(())
         }
     }
+}
+
+// ---------------------------------------------------------------- the silence after the end is the format's true mid-point
+
+/// What a finished signal, a delay's lead-in and `signal::equilibrium()` yield must be the amplitude-0 value of the
+/// format (raw mid-point of an unsigned format, 0 of a signed one, 0.0 of a float), for all 14 formats — stated
+/// independently of the library's own EQUILIBRIUM constants.
+#[derive(Clone, Debug, Serialize, Deserialize)]
+pub struct SilenceCase {
+    pub kind: vp_core::fmt::Kind,
+}
+
+pub fn check_silence(c: &SilenceCase, st: &mut Stats) -> CheckResult {
+    use dasp_sample::{I24, I48, U24, U48};
+    use vp_core::fmt::{Fmt, Kind, Val};
+    st.nt(true);
+    let zero = match c.kind {
+        Kind::Int { .. } => Val::I(c.kind.eq_raw()),
+        Kind::F32 => Val::F32(0.0),
+        Kind::F64 => Val::F64(0.0),
+    };
+    macro_rules! one {
+        ($($T:ty),*) => {$(
+            if c.kind == <$T as Fmt>::KIND {
+                let is_zero = |f: [$T; 2], what: &str| -> CheckResult {
+                    ensure!(f[0].to_val() == zero && f[1].to_val() == zero, "[{}; 2]: {} yields {:?}, the format's amplitude-0 value is {:?}", c.kind.name(), what, f, zero);
+                    Ok(())
+                };
+                let one_frame = vec![[<$T as Fmt>::from_val(zero); 2]; 1];
+                let mut s = signal::from_iter(one_frame.clone());
+                let _ = s.next();
+                is_zero(s.next(), "a finished from_iter signal")?;
+                let mut s = signal::from_interleaved_samples_iter::<_, [$T; 2]>(Vec::<$T>::new());
+                is_zero(s.next(), "an empty interleaved-samples signal")?;
+                is_zero(signal::from_iter(one_frame.clone()).delay(1).next(), "the lead-in of delay(1)")?;
+                is_zero(signal::equilibrium::<[$T; 2]>().next(), "signal::equilibrium()")?;
+                let padded: Vec<[$T; 2]> = signal::from_iter(Vec::<[$T; 2]>::new()).take(2).collect();
+                ensure!(padded.len() == 2, "take(2) over an empty signal yields {} frames", padded.len());
+                is_zero(padded[1], "take(n) past the end of its source")?;
+                return Ok(());
+            }
+        )*};
+    }
+    one!(i8, i16, I24, i32, I48, i64, u8, u16, U24, u32, U48, u64, f32, f64);
+    Err("bad case: unknown format".into())
 }
 
 pub fn run(ctx: &mut Ctx) {
@@ -451,7 +542,7 @@ pub fn run(ctx: &mut Ctx) {
     );
     ctx.assume("stream model: a finite source yields its complete frames, then equilibrium; pointwise adaptors keep the length, two-source adaptors take the minimum, delay(k) adds k; is_exhausted() is compared before and after every next()");
     ctx.assume("mul_hz: exhausted iff the multiplier signal is exhausted or a plain converter at the same constant ratio is (the converter's own exhaustion rule is C08's subject); bus output: exhausted iff it has received every source frame, outputs never pull once exhausted");
-    for c in ["non-fused source iterator (yields items again after None)", "interleaved input with a trailing incomplete frame", "zero-length signal", "two sources of different length", "delay over a finite source", "pulls past exhaustion"] {
+    for c in ["non-fused source iterator (yields items again after None)", "interleaved input with a trailing incomplete frame", "zero-length signal", "two sources of different length", "delay over a finite source", "pulls past exhaustion", "consumed through a &mut borrow"] {
         ctx.require_class(c);
     }
 
@@ -469,7 +560,7 @@ pub fn run(ctx: &mut Ctx) {
         |c, d| Node::Delay(Box::new(c), d),
         |c, d| Node::ByRef(Box::new(c), d),
     ];
-    let all_modes = |l: u64| vec![Mode::Step, Mode::UntilExhausted, Mode::Take(l / 2), Mode::Take(l + 2), Mode::InterleavedIter, Mode::NextSample, Mode::Lift];
+    let all_modes = |l: u64| vec![Mode::Step, Mode::UntilExhausted, Mode::Take(l / 2), Mode::Take(l + 2), Mode::InterleavedIter, Mode::NextSample, Mode::Lift, Mode::Borrowed];
     let max_l = ctx.pick(12u64, 16);
     let mut cases = Vec::new();
     for &ft in &fts {
@@ -548,7 +639,7 @@ pub fn run(ctx: &mut Ctx) {
     ctx.enumerate("interleaved-clone", true, cases.into_iter(), check_clone);
 
     // combining adaptors that are not tree nodes: mul_hz (carrier + multiplier signal) and bus outputs
-    for c in ["mul_hz: the multiplier signal ends first", "mul_hz: the carrier ends first", "bus: one output exhausted while another lags"] {
+    for c in ["mul_hz: the multiplier signal ends first", "mul_hz: the carrier ends first", "bus: one output exhausted while another lags", "bus: output attached while another output lags"] {
         ctx.require_class(c);
     }
     let mut cases = Vec::new();
@@ -576,8 +667,12 @@ pub fn run(ctx: &mut Ctx) {
     ctx.require_class("converter at ratio exactly 1 over a finite source");
     ctx.require_class("frequency signal (rate.hz) used as a signal");
     ctx.enumerate("converter-and-hz-exhaustion", true, cases.into_iter(), check_comb);
-    let bus = (0u64..10, 1usize..=4, proptest::collection::vec(0usize..4, 0..40)).prop_map(|(src_len, outputs, schedule)| CombCase::Bus { src_len, outputs, schedule });
+    let bus = (0u64..10, 1usize..=4, proptest::collection::vec(0usize..6, 0..40), proptest::collection::vec(0usize..30, 0..3)).prop_map(|(src_len, outputs, schedule, late)| CombCase::Bus { src_len, outputs, schedule, late });
     ctx.prop("bus-output-exhaustion", ctx.pick(5_000, 50_000), bus, check_comb);
+
+    // silence after the end == the amplitude-0 value of each of the 14 formats
+    let kinds: Vec<vp_core::fmt::Kind> = vp_core::fmt::INT_KINDS.iter().copied().chain([vp_core::fmt::Kind::F32, vp_core::fmt::Kind::F64]).collect();
+    ctx.enumerate("silence-is-the-midpoint", true, kinds.into_iter().map(|kind| SilenceCase { kind }), check_silence);
 
     let depth = ctx.pick(4u32, 6);
     let strat = (0usize..8, tree_strategy(depth, false), modes(), prop_oneof![2 => Just(0u64), 1 => 1u64..6]).prop_map(|(f, mut tree, mode, extra)| {
